@@ -34,6 +34,11 @@ func c07BaseItem(r *rand.Rand, bystanders int) val.Item {
 		"ns": val.NS("1", "2", "3"),
 		"bs": val.BS("a", "b"),
 		"l2": val.List(val.Str("x")),
+		// attributes that EXIST with a value some code might take for "nothing": NULL, false, empty string / list / map
+		"znull":  val.Null(),
+		"zfalse": val.Bool(false),
+		"zempty": val.Str(""),
+		"zm":     val.Map(map[string]val.V{"nul": val.Null(), "f": val.Bool(false)}),
 		// bystanders no action ever names: values a float64 round trip would change
 		"zbig":   val.Num("12345678901234567890123456789012345678"),
 		"zbigns": val.NS("9007199254740993", "1152921504606846977"),
@@ -139,6 +144,24 @@ var c07RHS = []rhsGen{
 		v[":d"] = val.Num("0")
 		return &refmodel.UExpr{Kind: "ifne", Path: pth("nope"), Kids: []*refmodel.UExpr{uv(":d")}}
 	}},
+	{"ifne-present-null", func(v val.Item) *refmodel.UExpr {
+		v[":d"] = val.Str("default")
+		return &refmodel.UExpr{Kind: "ifne", Path: pth("znull"), Kids: []*refmodel.UExpr{uv(":d")}}
+	}},
+	{"ifne-present-false", func(v val.Item) *refmodel.UExpr {
+		v[":d"] = val.Bool(true)
+		return &refmodel.UExpr{Kind: "ifne", Path: pth("zfalse"), Kids: []*refmodel.UExpr{uv(":d")}}
+	}},
+	{"ifne-present-empty-string", func(v val.Item) *refmodel.UExpr {
+		v[":d"] = val.Str("default")
+		return &refmodel.UExpr{Kind: "ifne", Path: pth("zempty"), Kids: []*refmodel.UExpr{uv(":d")}}
+	}},
+	{"ifne-present-nested-null", func(v val.Item) *refmodel.UExpr {
+		v[":d"] = val.Str("default")
+		return &refmodel.UExpr{Kind: "ifne", Path: pth("zm", "nul"), Kids: []*refmodel.UExpr{uv(":d")}}
+	}},
+	{"copy-null", func(v val.Item) *refmodel.UExpr { return up(pth("znull")) }},
+	{"copy-nested-false", func(v val.Item) *refmodel.UExpr { return up(pth("zm", "f")) }},
 	{"ifne-nested-absent", func(v val.Item) *refmodel.UExpr {
 		v[":d"] = val.Str("dd")
 		return &refmodel.UExpr{Kind: "ifne", Path: pth("m", "nope"), Kids: []*refmodel.UExpr{uv(":d")}}
